@@ -24,7 +24,10 @@ MODULE = "IwModel.Props.C20"
 THEOREMS = ["IwModel.C20." + t for t in (
     "stw_inv stw_accepted_once stw_started_nodup stw_fifo stw_shutdown_drains stw_drop_exact stw_reported stw_bounded "
     "stw_full_policy stw_no_lost_wakeup stw_deadlock_free stw_disabled_step stw_unfixed_accepts_after_shutdown "
-    "stw_unfixed_discard_crashes stw_uaf_reachable").split()]
+    "stw_unfixed_discard_crashes stw_uaf_reachable "
+    "tp_inv tp_accepted_once tp_start_order tp_started_nodup tp_bounded tp_full_policy tp_no_lost_wakeup tp_deadlock_free "
+    "tp_shutdown_drains tp_joins_all tp_drop_exact tp_never_reports tp_unfixed_accepts_after_shutdown "
+    "tp_unfixed_overflow_thread_useless").split()]
 
 WRAPS = ("pthread_mutex_lock", "pthread_mutex_unlock", "pthread_cond_wait", "pthread_cond_broadcast",
          "pthread_cond_signal", "pthread_create", "pthread_join", "pthread_detach")
